@@ -94,11 +94,12 @@ theorem host_idempotent (puny : Str → Str) (hp : PunyLaws puny) (h : Str) :
 
 theorem safelyUnquote_idem (U : List UInt8) (hU : (0x25 : UInt8) ∈ U) (hA : AsciiSet U) (s : Str) :
     safelyUnquote U (safelyUnquote U s) = safelyUnquote U s := by
-  have hout := outTok_unquoteToks U (tokens s) (wf_tokens s)
-  have h : tokens (safelyUnquote U s) = unquoteToks U (tokens s) :=
-    tokens_render_of_canon _ (fun t ht => canon_of_outTok hU (wf_tokens s) (hout t ht))
+  have hw := wf_escapeRaw (wf_tokens s)
+  have hout := outTok_unquoteToks U (escapeRaw (tokens s)) hw
+  have h : tokens (safelyUnquote U s) = unquoteToks U (escapeRaw (tokens s)) :=
+    tokens_render_of_canon _ (fun t ht => canon_of_outTok hU hw (hout t ht))
   unfold safelyUnquote at h ⊢
-  rw [h, unquoteToks_idem U hU hA]
+  rw [h, escapeRaw_unquoteToks, unquoteToks_idem U hU hA]
 
 /-- userinfo items and the fragment: canonicalizing the canonical component changes nothing
 (unquoted mode) -/
